@@ -388,6 +388,38 @@ def case_project_files(case):
     return core.ok(key=[case["kind"], case["history"]], outcome=len(vs), violations=vs, transitions=len(case["history"]), traces=len(case["history"]))
 
 
+def case_import_names(case):
+    """import_data under two names: each name has its own file; importing (or overwriting) one never touches the other"""
+    from glotaran.io import load_dataset
+    from glotaran.project import Project
+
+    o = objects()
+    vs = []
+    n1, n2 = case["names"]
+    with tempfile.TemporaryDirectory(prefix="vf-c18-") as d, warnings.catch_warnings():
+        warnings.simplefilter("ignore")
+        project = Project.open(Path(d) / "proj")
+        ds1 = o["dataset"]
+        ds2 = ds1.copy(deep=True)
+        ds2["data"] = ds2["data"] * 2.0
+        f1, f2 = project.folder / "data" / f"{n1}.nc", project.folder / "data" / f"{n2}.nc"
+        try:
+            project.import_data(ds1, dataset_name=n1)
+            b1 = f1.read_bytes() if f1.exists() else None
+            if b1 is None:
+                vs.append(V("imported-dataset-not-stored-under-its-name", name=n1, files=sorted(p.name for p in (project.folder / "data").iterdir())))
+            project.import_data(ds2, dataset_name=n2, allow_overwrite=case["allow"], ignore_existing=case["ignore"])
+            if not f2.exists():
+                vs.append(V("imported-dataset-not-stored-under-its-name", name=n2, files=sorted(p.name for p in (project.folder / "data").iterdir())))
+            elif not np.array_equal(load_dataset(f2)["data"].values, ds2["data"].values):
+                vs.append(V("imported-dataset-file-holds-other-data", name=n2))
+            if b1 is not None and (not f1.exists() or f1.read_bytes() != b1):
+                vs.append(V("importing-one-name-changed-another-names-file", changed=n1, imported=n2, allow_overwrite=case["allow"]))
+        except Exception as e:  # noqa: BLE001
+            vs.append(V("import-of-a-new-name-raised", names=[n1, n2], exc=repr(e)[:200]))
+    return core.ok(key=[case["names"], case["allow"], case["ignore"]], outcome=len(vs), violations=vs)
+
+
 def case_tlc_run_edge(case):
     from vf import tlc
 
@@ -447,7 +479,7 @@ def case_create_relative(case):
 
 
 CASE_FUNCS = {"overwrite": case_overwrite, "history": case_history, "project_files": case_project_files, "tlc_run_edge": case_tlc_run_edge,
-              "create_relative": case_create_relative}  # fmt: skip
+              "create_relative": case_create_relative, "import_names": case_import_names}  # fmt: skip
 
 
 def run(run: core.Run):
@@ -497,6 +529,12 @@ def run(run: core.Run):
                 pf.append({"kind": kind, "history": [list(x) for x in h]})
     run.map("project_files", pf, chunksize=8)
     run.map("create_relative", [{"cwd": "elsewhere"}, {"cwd": "script_folder"}])
+    imp = []
+    for names in (["a", "ab"], ["s_0.5mM", "s_0.25mM"], ["d.nc", "d"], ["run.1", "run.2"], ["x", "x.y"]):
+        for allow, ignore in ((False, True), (True, True), (False, False), (True, False)):
+            imp.append({"names": names, "allow": allow, "ignore": ignore})
+            imp.append({"names": names[::-1], "allow": allow, "ignore": ignore})
+    run.map("import_names", imp)
     try:
         from vf import tlc
 
